@@ -26,6 +26,7 @@ fn main() {
         "fmtrun" => fmtrun::main(&args[1..]),
         "literal" => literal::main(&args[1..]),
         "number" => literal::main_numbers(&args[1..]),
+        "ident" => literal::main_idents(&args[1..]),
         "lexlist" => lexrun::main_list(&args[1..]),
         "render-ndjson" => {
             // args: <dbset.json> <programs.ndjson> <out.ndjson of {"id","src"}>
